@@ -18,7 +18,7 @@ ASSUMPTIONS = [
     "no validator is frozen and the validator set is never empty in the generated histories; storage never fails mid-distribution",
 ]
 
-TRIGGERS = {}   # every finding of this property has been repaired in /repo; any monitor hit is a violation
+TRIGGERS = {5: "C14.expired_never_finalised"}   # all other findings have been repaired in /repo: any other monitor hit is a violation
 CODES = {1: "stage went backwards", 2: "proposal id held by two stores", 3: "recorded total differs from the sum of the funder records",
          4: "voting although the total is below the goal", 5: "expired (insufficientVotes) although not in voting with its deadline behind the block height",
          6: "snapshot validators/powers changed after voting began", 7: "passed store without completedYes / finalized with funds left",
@@ -29,6 +29,8 @@ CODES = {1: "stage went backwards", 2: "proposal id held by two stores", 3: "rec
          15: "a proposal record after the import differs from the one before the export (beyond the deadline shift of active proposals)",
          16: "the OLT recorded for a proposal exceeds the OLT actually paid into it minus the OLT refunded (measured from the OLT balance deltas of payers and beneficiaries)",
          17: "more OLT refunded from a proposal than was paid into it (measured from OLT balance deltas)",
+         18: "the stage does not follow the recorded votes (exact tally under the proposal's own percentage)",
+         19: "expired (insufficientVotes) with the goal reached: the funds are neither refunded nor distributed",
          13: "still in the funding stage at the end of a block although the recorded total has reached the goal recorded in the proposal",
          11: "declared insufficientFunds (refundable) although the goal was met or the funding deadline had not passed"}
 
@@ -115,10 +117,10 @@ def run(ctx):
         by[k] = by.get(k, 0) + 1
     cov.update({
         "evaluations": rep["steps"], "distinct_nontrivial": rep["distinct_cases"],
-        "rule": "10 scripted histories (create / fund / withdraw with amounts in ETH (by accounts that own it and that do not), an unknown and an empty currency; export / import of proposals in every state incl. partial votes and waiting finalisations; corpus cases of the four fixed findings; two contradicting configuration updates drive a proposal into the finalize-failed store, then the ids of proposals in every state are submitted again; funding-goal option raised / lowered by a finalised configuration proposal while a proposal of that type is being funded; votingDeadline, passPercentage, initialFunding, fundingDeadline of a type changed while proposals of it are in funding / voting) + seeded "
+        "rule": "13 scripted histories (tallies exactly on and next to the 33% / 67% thresholds with stake-weighted powers; 64-character ids with '_' / '~' / non-hex letters; expiry with the goal reached; create / fund / withdraw with amounts in ETH (by accounts that own it and that do not), an unknown and an empty currency; export / import of proposals in every state incl. partial votes and waiting finalisations; corpus cases of the four fixed findings; two contradicting configuration updates drive a proposal into the finalize-failed store, then the ids of proposals in every state are submitted again; funding-goal option raised / lowered by a finalised configuration proposal while a proposal of that type is being funded; votingDeadline, passPercentage, initialFunding, fundingDeadline of a type changed while proposals of it are in funding / voting) + seeded "
                 "random governance histories on the whole application (Replica): create/fund/vote/cancel/withdraw/public expire/public "
                 "finalize from proposers, funders, strangers, a poor account, validators and non-validators, stake changes, blocks past "
-                "the deadlines; stage-biased generator; about 5% of the create / fund / withdraw transactions name another currency (two users really own ETH); per proposal the OLT paid in and refunded is measured from the OLT balance deltas of payers and beneficiaries and compared with the model's events and with the recorded total; every second history is relaunched in its middle from the governance state exported the way olfullnode save_state does (JSON genesis, InitChain -> LoadProposals) and goes on on the new chain; every third history runs on a genesis with production-range options (half of them start with a pair of contradicting updates, so that finalize-failed is reached; ids of existing proposals, finalize-failed ones first, are submitted again) where "
+                "the deadlines; stage-biased generator; the generated histories rotate through five validator sets (3, 6 and 7 validators, stake-weighted powers that put single validators and coalitions exactly on and next to 33/34, 40/41, 49/51, 60 and 67 per cent); about 3% of the creates use a malformed id; about 5% of the create / fund / withdraw transactions name another currency (two users really own ETH); per proposal the OLT paid in and refunded is measured from the OLT balance deltas of payers and beneficiaries and compared with the model's events and with the recorded total; every second history is relaunched in its middle from the governance state exported the way olfullnode save_state does (JSON genesis, InitChain -> LoadProposals) and goes on on the new chain; every third history runs on a genesis with production-range options (half of them start with a pair of contradicting updates, so that finalize-failed is reached; ids of existing proposals, finalize-failed ones first, are submitted again) where "
                 "configuration proposals change fundingGoal / votingDeadline / fundingDeadline / initialFunding / passPercentage of "
                 "every type (and ONS options) while other proposals are in their funding / voting stage; distinct = distinct operation sequences",
         "traces_validated_against_impl": rep["cases"], "blocks": rep["blocks"], "proposals": rep["proposals"],
@@ -138,6 +140,11 @@ def run(ctx):
          notes.get("stale_survivors", 0) != 0 or notes.get("stale_zero_withdraw_ok") or notes.get("stale_two_stores")),
         ("negative_fund_amount", 2, "782c385", "a negative contribution or withdrawal was accepted / the refund after the cancellation was refused",
          notes.get("negfund_deliver_ok") or notes.get("negfund_checktx_code") == 0 or notes.get("negwithdraw_ok") or notes.get("negfund_refund_ok") is False),
+        ("tally_float_boundary", 10, "6d9c57c", "a NO share of exactly (100-pass)% failed the proposal / a tally on a threshold was decided wrongly",
+         notes.get("tally_exact33_undecided") is False or notes.get("tally_exact33_then_passes") is False or
+         notes.get("tally_33p5_failed") is False or notes.get("tally_exact67_passed") is False),
+        ("proposal_id_alphabet", 11, "76734a6", "a proposal id that is not 64 hexadecimal characters was accepted by PROPOSAL_CREATE",
+         notes.get("badid_created") is not False),
         ("pass_percentage_drift", 3, "23f7d29", "a proposal whose votes pass under its own percentage was recorded as failed / ended up in two stores",
          notes.get("drift_p1_outcome_yes") is False or notes.get("drift_p1_two_stores") or notes.get("drift_applied") != 1),
     ]
@@ -147,6 +154,10 @@ def run(ctx):
             ctx.violation("directed_" + nm, {"kind": "a proposal that met the funding goal RECORDED in it before its funding deadline is not in its "
                           "voting stage / was thrown out of it after the funding-goal option of its type was changed by governance",
                           "notes": notes, "args": args, "case_index": ci, "history": describe(cases[ci])})
+    # the known finding C14.expired_never_finalised must still reproduce as recorded (or be repaired: then update the entry)
+    if notes.get("expired_reached") is False:
+        ctx.violation("directed_expired", {"kind": "the scenario 'goal reached, one vote, voting deadline passed' no longer ends in the failed store "
+                      "with outcome insufficientVotes", "notes": notes, "args": args, "case_index": 12, "history": describe(cases[12])})
     # directed: amounts denominated in another currency (owned or not, unknown, empty) for create / fund / withdraw
     if notes.get("currency_non_olt_accepted") or notes.get("currency_p0_untouched") is False:
         ctx.violation("directed_currency", {"kind": "a PROPOSAL_CREATE / PROPOSAL_FUND / PROPOSAL_WITHDRAW_FUNDS whose amount is not denominated in OLT was "
